@@ -45,6 +45,10 @@ type Config struct {
 	// Desc reverses the canonical order of the enabled set (descending logical ids): a second
 	// base schedule around which deviations are counted.
 	Desc bool
+	// LazyStart: a third base schedule in which a spawned goroutine starts only when nothing
+	// else (except event actors) can run; with it, "the child had not started yet" costs no
+	// deviation.
+	LazyStart bool
 	// FreeRun: library gates are pass-through and every enabled environment gate is released
 	// at once, so goroutines really run concurrently (used by the separate -race guard pass;
 	// not an exploration mode).
@@ -390,23 +394,33 @@ func (s *Sched) enabled() (en []trans, wakeAt int64) {
 		}
 	}
 	isStart := func(g *G) bool { return g.op.Kind == shim.OpYield && g.op.Name == "go" }
+	// Canonical order of the enabled set = (class, id). Classes:
+	//   0  start gate of a freshly spawned goroutine (default base schedule): by default a child
+	//      starts at once, as it did before goroutine starts became schedule points, and
+	//      *delaying* its start is the deviation - so every schedule reachable without start
+	//      gates stays reachable with the same number of deviations;
+	//   1  the goroutine that ran last;  2  every other goroutine;
+	//   3  start gates under the LazyStart base schedule (children start when nothing else can run);
+	//   4  event actors ("z..."), which fire at quiescence unless a deviation places them earlier.
+	class := func(g *G) int {
+		switch {
+		case isStart(g) && !s.cfg.LazyStart:
+			return 0
+		case strings.HasPrefix(g.ID, "z"):
+			return 4
+		case isStart(g):
+			return 3
+		case g == s.last:
+			return 1
+		}
+		return 2
+	}
 	sort.Slice(parked, func(i, j int) bool {
-		// A freshly spawned goroutine's start gate ranks first: by default a child starts at
-		// once (as it did before goroutine starts became schedule points), and *delaying* its
-		// start is the deviation. Every schedule reachable without start gates therefore stays
-		// reachable with the same number of deviations.
-		if si, sj := isStart(parked[i]), isStart(parked[j]); si != sj {
-			return si
+		ci, cj := class(parked[i]), class(parked[j])
+		if ci != cj {
+			return ci < cj
 		}
-		if (parked[i] == s.last) != (parked[j] == s.last) {
-			return parked[i] == s.last
-		}
-		// event actors ("z...") stay last under either order
-		zi, zj := strings.HasPrefix(parked[i].ID, "z"), strings.HasPrefix(parked[j].ID, "z")
-		if zi != zj {
-			return zj
-		}
-		if s.cfg.Desc && !zi {
+		if s.cfg.Desc && ci != 4 {
 			return parked[i].ID > parked[j].ID
 		}
 		return parked[i].ID < parked[j].ID
